@@ -36,6 +36,7 @@ class Gate:
 
 
 _CLOSE = object()
+_ABORT = object()
 
 
 class MemWS:
@@ -54,6 +55,9 @@ class MemWS:
         if item is _CLOSE:
             self.inbox.put_nowait(_CLOSE)
             raise websockets.ConnectionClosedOK(None, None)
+        if item is _ABORT:
+            self.inbox.put_nowait(_ABORT)
+            raise websockets.ConnectionClosedError(None, None)   # the peer vanished without a closing handshake
         return item
 
     def __aiter__(self):
@@ -79,11 +83,11 @@ class MemWS:
         self._finish(code)
 
     # ---- harness side ----
-    def _finish(self, code):
+    def _finish(self, code, abnormal=False):
         if not self.closed:
             self.closed = True
             self.close_code = code
-            self.inbox.put_nowait(_CLOSE)
+            self.inbox.put_nowait(_ABORT if abnormal else _CLOSE)
             if not self._closed_fut.done():
                 self._closed_fut.set_result(None)
 
@@ -145,6 +149,12 @@ class MemConn(Conn):
             self.client_closed_at = self.world.now
             self.ws._finish(1000)
 
+    async def abort(self):
+        """the client disappears without a closing handshake (process killed, network gone)"""
+        if not self.ws.closed:
+            self.client_closed_at = self.world.now
+            self.ws._finish(1006, abnormal=True)
+
     async def finish(self):
         if not self.ws.closed:  # a case that ended early (violation) leaves connections open: close them like a client would
             self.ws._finish(1000)
@@ -181,6 +191,12 @@ class RealConn(Conn):
         if not self.ws.closed:
             self.client_closed_at = self.world.now
             await self.ws.close()
+
+    async def abort(self):
+        if not self.ws.closed:
+            self.client_closed_at = self.world.now
+            with contextlib.suppress(Exception):
+                self.ws.transport.abort()
 
     async def finish(self):
         with contextlib.suppress(BaseException):
